@@ -210,6 +210,11 @@ def jobs_for(pid, tier, seed):
                     for meth in methods:
                         J.append({'name': f'{mgr} recycle: history {list(pre) or "fresh"}, backend {b or "healthy"}' + (f', method {meth}' if mgr == 'diesel' else ''),
                                   'kind': 'recycle_bse', 'cfg': {'manager': mgr, 'prefix': pre, 'backend': b, 'method': meth if mgr == 'diesel' else 'Fast', 'depth': 10}, 'crates': C})
+            for pre in (('cancelled_ok_running',), ('cancelled_panic_running',)):
+                for b in backends:
+                    for meth in methods[:2]:
+                        J.append({'name': f'{mgr} recycle while the closure of a cancelled interaction is still running: {pre[0]}, backend {b or "healthy"}' + (f', method {meth}' if mgr == 'diesel' else ''),
+                                  'kind': 'recycle_bse', 'cfg': {'manager': mgr, 'prefix': pre, 'backend': b, 'method': meth if mgr == 'diesel' else 'Fast', 'depth': 10, 'split': True}, 'crates': C})
     elif pid == 'C16':
         n = 4 if q else 8
         for i in range(n):
